@@ -1,4 +1,12 @@
 import SamplyModel.Lemmas.ProfileCanonical
+import SamplyModel.Lemmas.ProfileIdentSer
+import SamplyModel.Lemmas.ProfileDecode
+import SamplyModel.Lemmas.ProfileFrameDesc
+import SamplyModel.Lemmas.ProfileNsym
+import SamplyModel.Lemmas.ProfileAddrFrame
+import SamplyModel.Lemmas.ProfileSymFrame
+import SamplyModel.Lemmas.ProfileStackDecode
+import SamplyModel.Lemmas.ProfileIdRule
 /-!
 # C03 — every serialized profile is internally consistent (no dangling index)
 
@@ -116,12 +124,42 @@ theorem C03_counter_main_thread (ops : List Op) (h : Accepted ops = true) :
       (∀ x ∈ procBlock (run ops) c.process, ∃ t, (run ops).threads[x]? = some t ∧ t.process = c.process) := by
   have hi := Inv.run ops h
   intro c hc
-  have hpi := hi.1.counters c hc
+  have hpi := hi.1.counters_lt c hc
   refine ⟨?_, fun x hx => procBlock_thread _ hi.2 _ x hx⟩
   intro k hk
   rcases firstThreadIndex_denotes _ c.process hpi k with h1 | h1
   · exact h1
   · omega
+
+/-- **Identity clauses, stated on the serialized profile** (the predicate `identOk` is the one the judge
+evaluates on the implementation's tables, there with a caller-side view computed from the op lines): for
+every accepted history and the profile `s` it serializes to — exactly the created threads are serialized;
+pid strings of different processes differ; every thread handle is found under its tid string and that
+serialized thread carries its process's pid string and its main flag; `initialVisibleThreads[k]` /
+`initialSelectedThreads[k]` is the position of the thread (found by tid string) the caller passed in the
+`k`-th call; `counters[c].pid` is the pid string of the process the caller named and, if that process has
+a thread, `counters[c].mainThreadIndex` is the position of the first thread in `s.threads` carrying that
+pid string. `P.view` only projects the model state to what the caller knows (handle ↦ pid / tid string,
+process, main flag); no helper of the model's serializer occurs in the statement. -/
+theorem C03_identity (ops : List Op) (h : Accepted ops = true) (s : SerProfile)
+    (hs : serialize (run ops) = some s) : identOk (run ops).view s = true :=
+  identOk_of_inv _ (Inv.run ops h).1 (Inv.run ops h).2 s hs
+
+/-- **The pid / tid strings are the ones the caller expects** — for every call sequence, accepted or not: the
+pid of process handle `i` and the tid of thread handle `j` (`P.view` renders them with `idString`) are given
+by the caller-side rule `idSpec`: the numeric id, and as suffix the number of earlier uses of that id
+(`add_process` for pids; `add_thread` and `set_thread_tid` for tids; the last assignment of a thread counts).
+This is the rule the judge's reference (`expectedId`) applies to the op lines. -/
+theorem C03_id_rule (ops : List Op) :
+    (run ops).processes.map (·.pid) = (idSpec ops).pids ∧ (run ops).threads.map (·.tid) = (idSpec ops).tids := by
+  have h := idInv_run ops P.init {} ⟨rfl, rfl, fun _ => rfl, fun _ => rfl⟩
+  exact ⟨h.pids, h.tids⟩
+
+/-- the pid a counter was created with is the pid of its process at every later time (counters.rs keeps
+the pid string; `Process` has no pid setter) -/
+theorem C03_counter_pid (ops : List Op) (h : Accepted ops = true) :
+    ∀ c ∈ (run ops).counters, ∃ pr, (run ops).processes[c.process]? = some pr ∧ pr.pid = c.pid :=
+  (Inv.run ops h).1.counters
 
 /-- within a process's block the threads are ordered by `cmp_for_json_order` (a total preorder, so this
 holds for any stable or unstable sort by it); in particular main threads come first — in every state -/
@@ -196,7 +234,266 @@ theorem C03_canonical_injective (ops : List Op) (h : Accepted ops = true) :
       th.frames.keys.Nodup := by
   intro th hth
   obtain ⟨_, a2, _, a4, _⟩ := (Inv.run ops h).1.threads th hth
-  exact ⟨walk_injective th.stacks _ a4, a2.2.2.2.2.2.2.2.2.2.2.2.2.2⟩
+  exact ⟨walk_injective th.stacks _ a4, a2.2.2.2.2.2.2.2.2.2.2.2.2.2.1⟩
+
+/-- **Canonical interning of frames, decoding half (1): rows carry their keys.** For every accepted history
+and the profile `s` it serializes to, every thread the caller created is serialized (under its tid string)
+and *every* row `i` of its frame table, read back through `frameTable.func → funcTable.{name, fileName,
+isJS/relevantForJS, resource} → resourceTable.lib` and the frame columns (`SerThread.rowFrame`), is exactly
+the frame key interned at index `i` — name / file string indices, flags, library (index into the used
+libs), relative address, native symbol index, inline depth, category, subcategory, line, column. In
+particular two frames that differ only in their library never share a func or resource row (a model that
+followed a resource table keyed by the library *name* would not satisfy this). -/
+theorem C03_frame_rows (ops : List Op) (h : Accepted ops = true) (s : SerProfile)
+    (hs : serialize (run ops) = some s) (t : Nat) (th : Thread) (ht : (run ops).threads[t]? = some th) :
+    ∃ st ∈ s.threads, st.tid = idString th.tid ∧ st.strings = th.strings.table.strings ∧
+      ∀ (i : Nat) (k : Frame), th.frames.keys[i]? = some k → st.rowFrame i = some k := by
+  have hi := Inv.run ops h
+  obtain ⟨_, _, hthreads⟩ := serialize_parts _ hi.2 s hs
+  obtain ⟨st, hst, hser⟩ := hthreads t th ht
+  refine ⟨st, hst, (serThread_fields _ th st hser).1, ?_, ?_⟩
+  · unfold serThread at hser
+    split at hser
+    · cases hser; rfl
+    · cases hser
+  · intro i k hk
+    rw [serThread_rowFrame _ th st hser i]
+    obtain ⟨_, a2, _⟩ := hi.1.threads th (List.mem_of_getElem? ht)
+    exact a2.2.2.2.2.2.2.2.2.2.2.2.2.2.2.row i k hk
+
+/-- **Canonical interning of frames, decoding half (2): what a row says.** `decodeFrame s st i` — the
+judge's decoding of frame row `i` of the serialized thread: name / file through `stringArray`, library
+identity through `resourceTable.lib → libs`, native symbol (library, address, size, name) through
+`nativeSymbols`, category / subcategory names through `meta.categories` — is the description `P.descOf` of
+the key interned at `i`, evaluated in the final model state. -/
+theorem C03_frame_decode (ops : List Op) (h : Accepted ops = true) (s : SerProfile)
+    (hs : serialize (run ops) = some s) (t : Nat) (th : Thread) (ht : (run ops).threads[t]? = some th) :
+    ∃ st ∈ s.threads, st.tid = idString th.tid ∧
+      ∀ (i : Nat) (k : Frame), th.frames.keys[i]? = some k → decodeFrame s st i = (run ops).descOf th k :=
+  decode_of_inv _ (Inv.run ops h).1 (Inv.run ops h).2 s hs t th ht
+
+/-- **Canonical interning of frames, decoding half (3): descriptions are stable.** Once the key at frame
+handle `(t, i)` has a description — its name / file strings, library identity, native symbol, category and
+subcategory names are defined — the same handle has the same key and the same description at the end of
+every accepted continuation: string arrays, native symbol tables, the used-library list and the library
+set are append-only, categories keep name and colour, subcategory lists are append-only
+(`step_ext`). -/
+theorem C03_frame_desc_stable (pre post : List Op) (h : Accepted (pre ++ post) = true) (t i : Nat) (th : Thread)
+    (k : Frame) (d : FrameDesc) (ht : (run pre).threads[t]? = some th) (hk : th.frames.keys[i]? = some k)
+    (hd : (run pre).descOf th k = some d) :
+    ∃ th', (run (pre ++ post)).threads[t]? = some th' ∧ th'.frames.keys[i]? = some k ∧
+      (run (pre ++ post)).descOf th' k = some d := by
+  have hsplit : ∀ (l : List Op) (p : P), AcceptedFrom p (l ++ post) = true →
+      AcceptedFrom p l = true ∧ AcceptedFrom (l.foldl (fun p o => (step p o).1) p) post = true := by
+    intro l
+    induction l with
+    | nil => intro p hp; exact ⟨rfl, hp⟩
+    | cons o os ih =>
+      intro p hp
+      simp only [List.cons_append, AcceptedFrom, Bool.and_eq_true] at hp ⊢
+      obtain ⟨h1, h2⟩ := ih _ hp.2
+      exact ⟨⟨hp.1, h1⟩, h2⟩
+  obtain ⟨hpre, hpost⟩ := hsplit pre P.init h
+  have hrun : run (pre ++ post) = post.foldl (fun p op => (step p op).1) (run pre) := by
+    simp [run, List.foldl_append]
+  rw [hrun]
+  have he := runFrom_ext post (run pre) (Inv.run pre hpre) hpost
+  obtain ⟨th', ht', hd'⟩ := P.descOf_stable he t th ht k d hd
+  refine ⟨th', ht', ?_, hd'⟩
+  obtain ⟨th'', ht'', hle⟩ := run_grow post (run pre) t th ht
+  rw [ht'] at ht''
+  cases ht''
+  exact prefix_getElem? hle.2.2 hk
+
+/-- **Canonical interning of label frames.** If `handle_for_frame_with_label(_and_source_location)` returned
+the frame handle `(t, i)` at some point of an accepted history, then in the profile serialized *at the end
+of the history* row `i` of that thread's frame table decodes — through funcTable, stringArray,
+meta.categories — to exactly what the caller passed (`P.labelDesc`, evaluated in the state before the
+call): the label string, the category / subcategory names behind the subcategory handle, no library /
+address / native symbol, inline depth 0, the file string, line, column and the flags. -/
+theorem C03_canonical_label_frame (pre post : List Op) (t str : Nat)
+    (src : Option (Option Nat × Option Nat × Option Nat)) (sc : SubSpec) (flags i : Nat)
+    (h : Accepted (pre ++ .frameLabel t str src sc flags :: post) = true)
+    (hout : (step (run pre) (.frameLabel t str src sc flags)).2 = .h [t, i])
+    (s : SerProfile) (hs : serialize (run (pre ++ .frameLabel t str src sc flags :: post)) = some s) :
+    ∃ d, (run pre).labelDesc str src sc flags = some d ∧
+      ∃ th st, (run (pre ++ .frameLabel t str src sc flags :: post)).threads[t]? = some th ∧ st ∈ s.threads ∧
+        st.tid = idString th.tid ∧ decodeFrame s st i = some d := by
+  obtain ⟨hpre, hv⟩ := C03_accepted_split pre _ post h
+  obtain ⟨d, th2, k, hd, ht2, hk2, hdesc⟩ :=
+    label_step (run pre) (Inv.run pre hpre) (SDecAll.run pre hpre) t str src sc flags hv i hout
+  have hrun : run (pre ++ [.frameLabel t str src sc flags]) = (step (run pre) (.frameLabel t str src sc flags)).1 := by
+    simp [run, List.foldl_append]
+  have hall : pre ++ .frameLabel t str src sc flags :: post = (pre ++ [.frameLabel t str src sc flags]) ++ post := by
+    simp
+  rw [hall] at h hs ⊢
+  rw [← hrun] at ht2 hdesc
+  obtain ⟨th', ht', hk', hd'⟩ := C03_frame_desc_stable _ post h t i th2 k d ht2 hk2 hdesc
+  obtain ⟨st, hst, htid, hdec⟩ := C03_frame_decode _ h s hs t th' ht'
+  exact ⟨d, hd, th', st, ht', hst, htid, by rw [hdec i k hk', hd']⟩
+
+/-- **Canonical interning of native symbols.** If `handle_for_native_symbol(thread, lib, symbol)` returned
+the handle `(t, j)` at some point of an accepted history, then in the profile serialized at the end of the
+history row `j` of that thread's `nativeSymbols` table decodes (`decodeNsym`: `libIndex → libs`, `address`,
+`functionSize`, `name → stringArray`) to the identity of the library behind the handle `lib`, the symbol's
+address, and a size / name which are the passed symbol's if the pair (library, address) had not been
+registered on this thread before (no earlier row of the thread carries it), and which are otherwise those of
+the existing row: a description the row had before the call is unchanged. -/
+theorem C03_canonical_native_symbol (pre post : List Op) (t lib : Nat) (sym : Sym) (j : Nat)
+    (h : Accepted (pre ++ .nativeSymbol t lib sym :: post) = true)
+    (hout : (step (run pre) (.nativeSymbol t lib sym)).2 = .h [t, j])
+    (s : SerProfile) (hs : serialize (run (pre ++ .nativeSymbol t lib sym :: post)) = some s) :
+    ∃ th0 th st id sz nm, (run pre).threads[t]? = some th0 ∧
+      (run (pre ++ .nativeSymbol t lib sym :: post)).threads[t]? = some th ∧ st ∈ s.threads ∧
+      st.tid = idString th.tid ∧ (run pre).libs.all[lib]? = some id ∧
+      decodeNsym s st j = some (id, sym.addr, sz, nm) ∧
+      ((∀ u : Nat, (run pre).libs.used[u]? = some lib →
+          ¬ ∃ j' : Nat, th0.nsyms.libs[j']? = some u ∧ th0.nsyms.addrs[j']? = some sym.addr) →
+        sz = sym.size ∧ nm = sym.name) ∧
+      (∀ d0, (run pre).nsymDescOf th0 j = some d0 → d0 = (id, sym.addr, sz, nm)) := by
+  obtain ⟨hpre, _⟩ := C03_accepted_split pre _ post h
+  obtain ⟨th0, th2, id, sz, nm, e1, e2, e3, e4, e5, e6⟩ :=
+    nativeSymbol_step (run pre) (Inv.run pre hpre) t lib sym j hout
+  have hall : pre ++ .nativeSymbol t lib sym :: post = (pre ++ [.nativeSymbol t lib sym]) ++ post := by simp
+  have hrun : run (pre ++ [.nativeSymbol t lib sym]) = (step (run pre) (.nativeSymbol t lib sym)).1 := by
+    simp [run, List.foldl_append]
+  rw [hall] at h hs ⊢
+  rw [← hrun] at e2 e4
+  obtain ⟨th', ht', hd'⟩ := P.nsymDescOf_stable (ext_of_accepted _ post h) t th2 e2 j _ e4
+  obtain ⟨st, hst, htid, hdec⟩ := decodeNsym_of_inv _ (Inv.run _ h).2 s hs t th' ht'
+  exact ⟨th0, th', st, id, sz, nm, e1, ht', hst, htid, e3, by rw [hdec j, hd'], e5, e6⟩
+
+/-- **Canonical interning of address frames.** If `handle_for_frame_with_address(thread, address, subcategory,
+flags)` returned the frame handle `(t, i)` at some point of an accepted history, then in the profile
+serialized at the end of the history row `i` of that thread's frame table decodes to a description that
+satisfies the caller-side specification `P.AddrFrameSpec`, evaluated in the state before the call: the
+category / subcategory names behind the subcategory handle, the flags, no file / line / column, inline depth
+0; for an address no mapping of the thread's process covers: the hex string of the address as name and no
+library / address / native symbol; for an address inside a library (through the mapping with the greatest
+start covering it, or given library-relative): the *identity* of that library (reached through
+`funcTable.resource → resourceTable.lib → libs`), the relative address, and — if the library's symbol table
+has a symbol covering the relative address — the native symbol (library identity, symbol address, size,
+name; first registration of (library, address) on the thread wins) with its name as the frame's name,
+otherwise the hex string of the relative address and no native symbol. -/
+theorem C03_canonical_address_frame (pre post : List Op) (t : Nat) (a : AddrSpec) (sc : SubSpec) (flags i : Nat)
+    (h : Accepted (pre ++ .frameAddr t a sc flags :: post) = true)
+    (hout : (step (run pre) (.frameAddr t a sc flags)).2 = .h [t, i])
+    (s : SerProfile) (hs : serialize (run (pre ++ .frameAddr t a sc flags :: post)) = some s) :
+    ∃ d, (run pre).AddrFrameSpec t a sc flags d ∧
+      ∃ th st, (run (pre ++ .frameAddr t a sc flags :: post)).threads[t]? = some th ∧ st ∈ s.threads ∧
+        st.tid = idString th.tid ∧ decodeFrame s st i = some d := by
+  obtain ⟨hpre, hv⟩ := C03_accepted_split pre _ post h
+  obtain ⟨d, th2, k, hd, ht2, hk2, hdesc⟩ :=
+    addr_step (run pre) (Inv.run pre hpre) (SDecAll.run pre hpre) t a sc flags hv i hout
+  have hrun : run (pre ++ [.frameAddr t a sc flags]) = (step (run pre) (.frameAddr t a sc flags)).1 := by
+    simp [run, List.foldl_append]
+  have hall : pre ++ .frameAddr t a sc flags :: post = (pre ++ [.frameAddr t a sc flags]) ++ post := by simp
+  rw [hall] at h hs ⊢
+  rw [← hrun] at ht2 hdesc
+  obtain ⟨th', ht', hk', hd'⟩ := C03_frame_desc_stable _ post h t i th2 k d ht2 hk2 hdesc
+  obtain ⟨st, hst, htid, hdec⟩ := C03_frame_decode _ h s hs t th' ht'
+  exact ⟨d, hd, th', st, ht', hst, htid, by rw [hdec i k hk', hd']⟩
+
+/-- **Canonical interning of symbolicated address frames.** If
+`handle_for_frame_with_address_and_symbol(thread, address, FrameSymbolInfo, inline depth, subcategory, flags)`
+returned the frame handle `(t, i)` at some point of an accepted history, then in the profile serialized at the
+end of the history row `i` of that thread's frame table decodes to a description satisfying the caller-side
+specification `P.SymFrameSpec`, evaluated in the state before the call: category / subcategory names, the file
+string, line, column, flags; for an unmapped address the given name (or the hex string), no library / address /
+native symbol, inline depth 0; for an address inside a library the library's identity, the relative address,
+the description of the native symbol *the passed handle denotes*, the inline depth, and the given name or the
+native symbol's name. -/
+theorem C03_canonical_symbol_frame (pre post : List Op) (t : Nat) (a : AddrSpec) (name : Option Nat) (nsym : TH)
+    (file line col : Option Nat) (depth : Nat) (sc : SubSpec) (flags i : Nat)
+    (h : Accepted (pre ++ .frameSym t a name nsym file line col depth sc flags :: post) = true)
+    (hout : (step (run pre) (.frameSym t a name nsym file line col depth sc flags)).2 = .h [t, i])
+    (s : SerProfile)
+    (hs : serialize (run (pre ++ .frameSym t a name nsym file line col depth sc flags :: post)) = some s) :
+    ∃ d, (run pre).SymFrameSpec t a name nsym file line col depth sc flags d ∧
+      ∃ th st, (run (pre ++ .frameSym t a name nsym file line col depth sc flags :: post)).threads[t]? = some th ∧
+        st ∈ s.threads ∧ st.tid = idString th.tid ∧ decodeFrame s st i = some d := by
+  obtain ⟨hpre, hv⟩ := C03_accepted_split pre _ post h
+  obtain ⟨d, th2, k, hd, ht2, hk2, hdesc⟩ :=
+    sym_step (run pre) (Inv.run pre hpre) (SDecAll.run pre hpre) t a name nsym file line col depth sc flags hv i hout
+  have hrun : run (pre ++ [.frameSym t a name nsym file line col depth sc flags]) =
+      (step (run pre) (.frameSym t a name nsym file line col depth sc flags)).1 := by
+    simp [run, List.foldl_append]
+  have hall : pre ++ .frameSym t a name nsym file line col depth sc flags :: post =
+      (pre ++ [.frameSym t a name nsym file line col depth sc flags]) ++ post := by simp
+  rw [hall] at h hs ⊢
+  rw [← hrun] at ht2 hdesc
+  obtain ⟨th', ht', hk', hd'⟩ := C03_frame_desc_stable _ post h t i th2 k d ht2 hk2 hdesc
+  obtain ⟨st, hst, htid, hdec⟩ := C03_frame_decode _ h s hs t th' ht'
+  exact ⟨d, hd, th', st, ht', hst, htid, by rw [hdec i k hk', hd']⟩
+
+/-- **Canonical interning, end to end.** A stack handle returned by `handle_for_stack_frames(thread, frames)`
+decodes, in the profile serialized at the end of every accepted continuation, to the decodings of the frame
+handles that were passed, in order — and each of those is pinned to what the caller described by
+`C03_canonical_label_frame` / `C03_canonical_address_frame` / `C03_canonical_symbol_frame`. -/
+theorem C03_canonical_stack_decoded (pre post : List Op) (t : Nat) (frames : List TH) (i : Nat)
+    (h : Accepted (pre ++ .stackFrames t frames :: post) = true)
+    (hout : (step (run pre) (.stackFrames t frames)).2 = .h [t, i])
+    (s : SerProfile) (hs : serialize (run (pre ++ .stackFrames t frames :: post)) = some s) :
+    ∃ th st, (run (pre ++ .stackFrames t frames :: post)).threads[t]? = some th ∧ st ∈ s.threads ∧
+      st.tid = idString th.tid ∧
+      decodeStack s st i = mapM' (fun f : TH => decodeFrame s st f.2) frames := by
+  have hcan := C03_canonical_stack_frames pre post t frames i h hout
+  cases hth : (run (pre ++ .stackFrames t frames :: post)).threads[t]? with
+  | none => simp [P.stackFrames?, hth] at hcan
+  | some th =>
+    obtain ⟨st, hst, htid, hdec⟩ := decodeStack_of_inv _ (Inv.run _ h).2 s hs t th hth
+    refine ⟨th, st, rfl, hst, htid, ?_⟩
+    rw [hdec i, hcan, Option.bind_some, mapM'_map_eq]
+
+/-- the same for `handle_for_stack(thread, frame, parent)`: the parent's decoding followed by the frame's -/
+theorem C03_canonical_stack_push_decoded (pre post : List Op) (t : Nat) (frame : TH) (parent : Option TH) (i : Nat)
+    (h : Accepted (pre ++ .stack t frame parent :: post) = true)
+    (hout : (step (run pre) (.stack t frame parent)).2 = .h [t, i])
+    (s : SerProfile) (hs : serialize (run (pre ++ .stack t frame parent :: post)) = some s) :
+    ∃ th st, (run (pre ++ .stack t frame parent :: post)).threads[t]? = some th ∧ st ∈ s.threads ∧
+      st.tid = idString th.tid ∧
+      decodeStack s st i =
+        (match parent with
+         | none => some []
+         | some par => if par.1 = t then decodeStack s st par.2 else none).bind
+          (fun r => (decodeFrame s st frame.2).map (fun y => r ++ [y])) := by
+  have hcan := C03_canonical_stack pre post t frame parent i h hout
+  cases hth : (run (pre ++ .stack t frame parent :: post)).threads[t]? with
+  | none =>
+    -- the returned handle's thread exists
+    exfalso
+    obtain ⟨hpre, hv⟩ := C03_accepted_split pre _ post h
+    simp only [handlesValid, Bool.and_eq_true, decide_eq_true_eq] at hv
+    have hlt := hv.1.1
+    obtain ⟨th', ht', _⟩ := ext_of_accepted pre (.stack t frame parent :: post) h |>.threads t _
+      (List.getElem?_eq_getElem hlt)
+    rw [hth] at ht'
+    cases ht'
+  | some th =>
+    obtain ⟨st, hst, htid, hdec⟩ := decodeStack_of_inv _ (Inv.run _ h).2 s hs t th hth
+    refine ⟨th, st, rfl, hst, htid, ?_⟩
+    rw [hdec i, hcan]
+    cases parent with
+    | none =>
+      simp only [P.extendFrames?, Option.bind_some, mapM']
+      cases decodeFrame s st frame.2 <;> rfl
+    | some par =>
+      obtain ⟨pt, pi⟩ := par
+      -- a returned handle means the parent belongs to thread `t`
+      have hpt : pt = t := by
+        by_cases hne : pt = t
+        · exact hne
+        · exfalso
+          simp only [step, P.stack] at hout
+          split at hout
+          · simp at hout
+          · simp [hne] at hout
+      subst hpt
+      simp only [P.extendFrames?, if_true]
+      rw [hdec pi]
+      cases hp : (run (pre ++ .stack pt frame (some (pt, pi)) :: post)).stackFrames? (pt, pi) with
+      | none => simp
+      | some l => simp only [Option.map_some, Option.bind_some, mapM'_append_one]
 
 /-- **Frame handles are stable.** The frame key behind a valid frame handle is the same at the end of any
 continuation of the history. -/
@@ -231,7 +528,7 @@ def C03_example : List Op :=
    .stack 0 (0, 0) none, .stack 0 (0, 1) (some (0, 0)), .stackFrames 0 [(0, 0), (0, 1), (0, 2), (0, 3)],
    .stack 1 (0, 0) none,
    .sample 0 (some (0, 1)) false, .sameSample 0, .allocSample 0 (some (0, 1)), .allocSample 1 none,
-   .markerType "rt0" 1 [.u, .n, .s], .marker 0 (.runtime 0) 0 [1, 0], .marker 2 (.static 1) 1 [0, 1, 0],
+   .markerType "rt0" 1 [.u, .n, .s], .marker 0 (.runtime 0) 0 [1, 0] .interval, .marker 2 (.static 1) 1 [0, 1, 0] .intervalEnd,
    .markerStack 0 0 (some (0, 3)),
    .counter 1, .visible 2, .selected 1, .setTid 1 1]
 
@@ -241,8 +538,30 @@ set_option maxRecDepth 8192 in
 example : (run C03_example).threads.map (fun t => (t.frames.keys.length, t.stacks.prefixes.length, t.samples.length))
     = [(4, 4, 2), (1, 0, 0), (0, 0, 0)] := by decide
 set_option maxRecDepth 8192 in
+example : (idSpec C03_example).pids = [(7, 0), (7, 1)] ∧ (idSpec C03_example).tids = [(1, 0), (1, 2), (2, 0)] := by decide
+set_option maxRecDepth 8192 in
 example : (run C03_example).processes.map (·.pid) = [(7, 0), (7, 1)] ∧
     (run C03_example).threads.map (·.tid) = [(1, 0), (1, 2), (2, 0)] := by decide
+-- `C03_identity` is not vacuous: the example serializes (two processes, three threads, a counter, positional
+-- references) and the serialized profile satisfies `identOk`
+set_option maxRecDepth 8192 in
+example : ∃ s, serialize (run C03_example) = some s ∧ identOk (run C03_example).view s = true := by
+  have ha : Accepted C03_example = true := by decide
+  obtain ⟨s, hs, _⟩ := C03_wf _ ha
+  exact ⟨s, hs, C03_identity _ ha s hs⟩
+set_option maxRecDepth 8192 in
+example : (run C03_example).threads.map (fun t => (t.process, t.isMain)) = [(0, true), (0, false), (1, true)] ∧
+    (run C03_example).counters.map (·.process) = [1] ∧ (run C03_example).visible = [2] := by decide
+-- the hypotheses of the decoding theorems are met by the example's frame / native-symbol calls
+set_option maxRecDepth 8192 in
+example : (step (run (C03_example.take 14)) (.frameLabel 0 0 none .other 0)).2 = .h [0, 0] ∧
+    (step (run (C03_example.take 15)) (.frameLabel 0 1 (some (some 0, some 3, none)) (.sub 1 1) 1)).2 = .h [0, 1] ∧
+    (step (run (C03_example.take 16)) (.frameAddr 0 (.abs .ip 20) (.catVal "JS" 8) 0)).2 = .h [0, 2] ∧
+    (step (run (C03_example.take 18)) (.nativeSymbol 0 0 ⟨32, none, "x"⟩)).2 = .h [0, 1] ∧
+    (step (run (C03_example.take 19)) (.frameSym 0 (.rel .ip 0 33) none (0, 1) none none none 2 (.cat 1) 0)).2 = .h [0, 3] ∧
+    (step (run (C03_example.take 21)) (.stack 0 (0, 1) (some (0, 0)))).2 = .h [0, 1] ∧
+    (step (run (C03_example.take 22)) (.stackFrames 0 [(0, 0), (0, 1), (0, 2), (0, 3)])).2 = .h [0, 3] := by
+  decide
 -- the call with a frame of another thread is rejected
 set_option maxRecDepth 8192 in
 example : (step (run (C03_example.take 23)) (.stack 1 (0, 0) none)).2 = .rejected := by decide
